@@ -529,6 +529,12 @@ func c19HTTPRound(tier string, c c19Case, r *rand.Rand, res *core.Result) {
 	defer cancel()
 	for i := 0; i < c.N; i++ {
 		e := c19Envelope(r, i, 200000)
+		if i < 3 {
+			// the property's upper body size, and just below it
+			b := make([]byte, (1<<20)-[]int{0, 1, 64}[i])
+			r.Read(b)
+			e.Body = &goatorepo.Body{Data: b}
+		}
 		if e.Header == nil {
 			e.Header = &goatorepo.RequestHeader{}
 		}
